@@ -168,9 +168,15 @@ impl Property for P {
         // sequences with a space or a hyphen in the payload are within the
         // quantifier (every ESC begins a well-formed sequence)
         mix.esc_tricky = 2;
-        (gen::token_text(mix, tier.max_tokens()), gen::optspec(og))
-            .prop_map(|(text, spec)| Case { text, spec })
-            .boxed()
+        let normal = (gen::token_text(mix, tier.max_tokens()), gen::optspec(og.clone()))
+            .prop_map(|(text, spec)| Case { text, spec });
+        let scaled = (gen::scaled_text_and_width(mix, 1200), gen::optspec(og)).prop_map(
+            |((text, w), mut spec)| {
+                spec.width = w;
+                Case { text, spec }
+            },
+        );
+        prop_oneof![66 => normal, 1 => scaled].boxed()
     }
     fn check(c: &Case, _m: Mode) -> Outcome {
         check(c)
